@@ -4,6 +4,7 @@ import (
 	"crypto/sha256"
 	"encoding/hex"
 	"fmt"
+	"os"
 	"path/filepath"
 	"strings"
 	"time"
@@ -112,6 +113,14 @@ func c01Case(ctx *genCtx, ts *tape.Set, dir string) *genResult {
 	files := w.Render()
 	writeWorld(dir, files)
 	res := &genResult{Sample: map[string]any{"files": userSources(files), "plan": plan, "gomaxprocs": gmp, "args": worldPkgs(w)}}
+	if probs := userSourceProblems(dir, w, worldPkgs(w)...); len(probs) > 0 {
+		res.probe("world.invalid_discarded")
+		res.Sample["invalid_world"] = probs
+		if os.Getenv("VERIF_SHOW_INVALID") != "" {
+			fmt.Fprintf(os.Stderr, "invalid world (case discarded): %v\n%s\n", probs, joinFiles(userSources(files)))
+		}
+		return res
+	}
 	res.Hash = worldHash(files, fmt.Sprint(*plan))
 	ncalls := len(w.Calls) + len(w.QCalls)
 	res.Nontrivial = ncalls >= 2 || w.HasExt || w.HasQ
